@@ -80,15 +80,13 @@ class CodemodRegistry:
         if codemod_exclude and not codemod_include:
             base_codemods = {}
             patterns = [
-                re.compile(exclude.replace("*", ".*"))
-                for exclude in codemod_exclude
-                if "*" in exclude
+                _compile_glob(exclude) for exclude in codemod_exclude if "*" in exclude
             ]
             names = set(name for name in codemod_exclude if "*" not in name)
 
             for codemod in self.codemods:
                 if codemod.id in names or any(
-                    pat.match(codemod.id) for pat in patterns
+                    pat.fullmatch(codemod.id) for pat in patterns
                 ):
                     continue
 
@@ -101,8 +99,10 @@ class CodemodRegistry:
         matched_codemods = []
         for name in codemod_include:
             if "*" in name:
-                pat = re.compile(name.replace("*", ".*"))
-                pattern_matches = [code for code in self.codemods if pat.match(code.id)]
+                pat = _compile_glob(name)
+                pattern_matches = [
+                    code for code in self.codemods if pat.fullmatch(code.id)
+                ]
                 matched_codemods.extend(pattern_matches)
                 if not pattern_matches:
                     logger.warning(
@@ -123,6 +123,11 @@ class CodemodRegistry:
     ) -> list[dict]:
         codemods = self.match_codemods(codemod_include, codemod_exclude)
         return [codemod.describe() for codemod in codemods]
+
+
+def _compile_glob(pattern: str) -> re.Pattern:
+    """Compile a codemod ID pattern where `*` is the only wildcard."""
+    return re.compile(".*".join(re.escape(part) for part in pattern.split("*")))
 
 
 def load_registered_codemods(ep_filter: Optional[Callable[[EntryPoint], bool]] = None):
